@@ -43,7 +43,18 @@ PairCases ==
      f \in ItemFeatures, g \in ItemFeatures, v \in VisValues, ev \in {"public", "crate"}, gl \in BOOLEAN}
   \cup {[enumvis |-> "public", cfg |-> PairCfg(f, <<P("vis", "str", v), P("name", "str", "renamed_" \o f)>>, g, <<P("vis", "str", w)>>), gapless |-> gl] :
      f \in {"iter", "names", "MIN", "next"}, g \in {"range", "iter", "MAX", "next_back", "as_str"}, v \in VisValues, w \in VisValues, gl \in BOOLEAN}
-StdCases == Cases \cup {x \in PairCases : \A p, q \in Entries(x.cfg) : p # q => EntryAt(x.cfg, p).f # EntryAt(x.cfg, q).f}
+\* functions / constants are associated items of the enum, the iterator structs are items of the module: the same
+\* identifier may be requested for one of each (and a function may be called like the other feature's default struct)
+L2(a, pa, b, pb) == [attrs |-> <<<<E(a, "list", pa)>> \o (IF pb = <<>> THEN <<E(b, "path", <<>>)>> ELSE <<E(b, "list", pb)>>)>>, varattr |-> NoVA]
+SameNameCases ==
+  {[enumvis |-> ev, cfg |-> cf, gapless |-> gl] : ev \in {"public", "private"}, gl \in BOOLEAN,
+     cf \in {[attrs |-> <<<<E("iter", "list", <<P("name", "str", "All"), P("struct_name", "str", "All")>>)>>>>, varattr |-> NoVA],
+             [attrs |-> <<<<E("names", "list", <<P("name", "str", "Labels"), P("struct_name", "str", "Labels")>>)>>>>, varattr |-> NoVA],
+             L2("iter", <<P("struct_name", "str", "Labels")>>, "names", <<P("name", "str", "Labels")>>),
+             L2("names", <<P("name", "str", "EIter")>>, "iter", <<>>),
+             L2("iter", <<P("name", "str", "ENames")>>, "names", <<>>),
+             L2("MIN", <<P("name", "str", "EIter")>>, "iter", <<>>)}}
+StdCases == Cases \cup SameNameCases \cup {x \in PairCases : \A p, q \in Entries(x.cfg) : p # q => EntryAt(x.cfg, p).f # EntryAt(x.cfg, q).f}
 \* shape-specific code paths may emit their own helper items: the same feature sets on an enum with many runs
 \* (12 singletons, i16) and on a large gapless enum (70 variants, i8 from -35); `shape` only selects the rendered body
 Sh(x, sh) == [enumvis |-> x.enumvis, cfg |-> x.cfg, gapless |-> x.gapless, shape |-> sh]
